@@ -26,7 +26,7 @@ class Violation:
 
     def as_dict(self):
         return {"property": self.prop, "clause": self.clause, "class_key": self.key, "detail": self.detail,
-                "event": self.event, "path": self.path}
+                "event": self.event, "path": self.path, "init": getattr(self, "init", None)}
 
 
 class Outcome:
@@ -67,7 +67,9 @@ class LabReplay:
         n = self.viol_count.get(fk, 0)
         self.viol_count[fk] = n + 1
         if n < MAX_SAMPLES_PER_CLASS:
-            self.viol.append(Violation(prop, clause, key, detail, ev, self.path_to(pre_key) + [ev]))
+            v = Violation(prop, clause, key, detail, ev, self.path_to(pre_key) + [ev])
+            v.init = getattr(self, "init_json", None)
+            self.viol.append(v)
 
     def ran(self, prop):
         self.evaluated[prop] = self.evaluated.get(prop, 0) + 1
@@ -244,6 +246,7 @@ class LabReplay:
             self.counts["transitions"] += 1
             pre_key = canon(pre_j)
             if not self.states:
+                self.init_json = pre_j
                 try:
                     objs0 = self.build_initial(model.state(pre_j))
                 except Exception as e:      # the library cannot even construct the initial containers
